@@ -151,6 +151,19 @@ def main():
                 t += '.' + ''.join(str(rnd.randint(0, 9)) for _ in range(rnd.randint(1, 7)))
             t += rnd.choice(['Z', '+00:00', '-05:00', '+05:30', '+05:45', '+12:45', '-09:30', '', 'z', '+5:30'])
         texts.append(t)
+    # far years with milliseconds (the conversion to local time must not lose a millisecond): only where the zone table is the
+    # whole truth - no transition after 1990 and the same offset in the far future; far past only for zones without any transition
+    import zoneinfo
+    zi = zoneinfo.ZoneInfo(tz)
+    last_year = max([r['year'] for r in table] + [0])
+    far = lambda y: int(datetime.datetime(y, 6, 1, tzinfo=datetime.timezone.utc).astimezone(zi).utcoffset().total_seconds() // 60)   # noqa: E731
+    if last_year < 1990 and all(far(y) == zone[-1]['off'] for y in (2150, 2500, 5000, 9000)):
+        spans = [(2300, 9000)] + ([(100, 1700)] if len(table) == 1 else [])
+        for _ in range(count // 3):
+            lo, hi = rnd.choice(spans)
+            t = (f'{rnd.randint(lo, hi):04d}-{rnd.randint(1, 12):02d}-{rnd.randint(1, 28):02d}T{rnd.randint(0, 23):02d}:{rnd.randint(0, 59):02d}:'
+                 f'{rnd.randint(0, 59):02d}.{rnd.randint(1, 999):03d}' + rnd.choice(['Z', '+00:00', '-05:00', '+05:30', '+12:45']))
+            texts.append(t)
     for t in texts:
         try:
             back = A.aval(SF['datetimeISOParse']([t], None))
